@@ -315,20 +315,22 @@ PROPS['C04'] = {
                     'UNCHECKED: the floating-point deviation bound (small multiple of 2^-53 scaled by the conditioning (|x|/dx)^3) - exact arithmetic only'],
 }
 PROPS['C05'] = {
-    'verus': ['u_spline'],
+    'verus': ['u_spline', 'u_shape_ident', 'u_shape'],
     'kani': PROPS['C04']['kani'],
     'probe': True,
     'level': 'other',
     'explanation': 'Over the contracts of C04 (f_dx == Kruger slope; segment == the Hermite cubic through both knots with the prescribed end slopes; wiring by Kani), '
                    'Verus proves for all real secant slopes: the interior-knot slope is 0 whenever the adjacent secants differ in sign or either is 0, otherwise it lies '
                    'between 0 and twice each adjacent secant (lemma_kruger_range); the end-knot slope 3/2 s - 1/2 f lies between s/2 and 3s/2 (lemma_end_slope_range); hence on '
-                   'every interval both end-slope ratios f/secant are in [0,3] and vanish with the secant (lemma_c05_slope_ratios). That a cubic Hermite segment with both ratios '
-                   'in [0,3] is monotone and stays between its end ordinates for EVERY real x of the interval is the Fritsch-Carlson condition (textbook theorem, not machine-checked here). '
-                   'Collinear knots: all secants equal s, every slope equals s, so c = d = 0 (segment contract). Coincidence with the exact Kruger spline: the four Hermite '
-                   'conditions of the segment contract determine the cubic uniquely.',
+                   'every interval both end-slope ratios f/secant are in [0,3] and vanish with the secant (lemma_c05_slope_ratios). lemma_hermite_monotone (units u_shape_ident + '
+                   'u_shape) then proves, for EVERY real point x0 + t(x1-x0), t in [0,1], of a cubic satisfying the four Hermite conditions of the segment contract with those '
+                   'ratios: the slope never has the sign opposite to the secant (monotone) and (p(x)-y0)(y1-p(x)) >= 0 (between the two ordinates) - the Fritsch-Carlson '
+                   'condition, machine-checked. Collinear knots: all secants equal s, every prescribed slope equals s, and the four Hermite conditions then force the line. '
+                   'Coincidence with the exact Kruger spline: the four Hermite conditions determine the cubic uniquely.',
     'assumptions': [FM_NOTE, FM_BITS, TY_NOTE, Z3W,
-                    'UNCHECKED (textbook mathematics): Fritsch-Carlson: a cubic Hermite segment whose end-slope/secant ratios lie in [0,3] is monotone on its interval; '
-                    'a machine-checked Verus proof was attempted and abandoned (degree-4 real identities in 7 variables exceed what the installed Z3 configurations discharge; see DESIGN.md)',
+                    'two Z3 configurations are needed (identities: smt.arith.nl via tools/z3wrap.sh; inequalities: Verus own nonlinear options); the 8 identity lemmas are proved in unit '
+                    'u_shape_ident and imported into u_shape with #[verifier::external_body] by mechanically copied signature (//@assume-lemma)',
+                    'the instantiation of lemma_hermite_monotone with the coefficients of the segment contract (a = rv(c[0]) ...) and the ratios of lemma_c05_slope_ratios is by matching definitions, not a checked lemma',
                     'bounded (Kani wiring): as C04', 'UNCHECKED: floating-point rounding bound (exact arithmetic only)'],
 }
 LIN = ['src/linear.rs: linear (closure over the running forced knot)', 'src/linear.rs: incr_linear']
